@@ -24,7 +24,10 @@ class calculate_cost_of_one_vertical_well(Contract):
 
     def configs(self):
         from geophires_x.OptionList import WellDrillingCostCorrelation
-        return [(f"correlation={c.int_value}", {"well_correlation": c}) for c in WellDrillingCostCorrelation]
+        import logging
+        import types
+        stub = types.SimpleNamespace(logger=logging.getLogger("pyvc-stub"))     # only used when replaying on the real code
+        return [(f"correlation={c.int_value}", {"well_correlation": c, "model": stub}) for c in WellDrillingCostCorrelation]
 
     @staticmethod
     def base_cost(s):
